@@ -136,7 +136,8 @@ function getPrepareStackTrace (originalPrepareStackTrace) {
         }
         const { path, line, column } = getSourcePathAndLineFromSourceMaps(filename, originalLine, originalColumn)
         if (path !== filename || line !== originalLine || column !== originalColumn) {
-          return stackFrame.replace(`${filename}:${originalLine}:${originalColumn}`, `${path}:${line}:${column}`)
+          // a replacer function: `$&`, `$$`... in a path are not replacement patterns
+          return stackFrame.replace(`${filename}:${originalLine}:${originalColumn}`, () => `${path}:${line}:${column}`)
         }
         return stackFrame
       })
